@@ -265,7 +265,7 @@ func TestC07(t *testing.T) {
 			}
 		}
 	}
-	col.Rapid(loc.Sub, env.PerShard(env.Pick(20000, 1000000)), func(t *rapid.T) {
+	col.Rapid(loc.Sub, env.PerShard(env.Pick(200000, 2000000)), func(t *rapid.T) {
 		c := &c07Case{
 			Kind:     rapid.SampledFrom(kinds).Draw(t, "kind"),
 			Wrappers: rapid.SliceOfN(rapid.SampledFrom(wrappers), 0, 6).Draw(t, "wrappers"),
